@@ -288,7 +288,7 @@ Lemma cat_important f : category_of f = CImportant -> is_important f = true.
 Proof.
   unfold category_of. destruct (is_csp f); [discriminate|]. destruct (is_removeparam f); [discriminate|].
   destruct (is_generic_hide f); [discriminate|]. destruct (is_exception f); [discriminate|].
-  destruct (is_important f); [reflexivity|].
+  destruct (is_important f); [reflexivity|]. cbn [andb].
   destruct (_ && _); [discriminate|]. destruct (_ || _); discriminate.
 Qed.
 Lemma cat_not_important f : category_of f = CTagged \/ category_of f = CNormal -> is_important f = false.
@@ -297,7 +297,9 @@ Proof.
   destruct (is_removeparam f); [intros [?|?]; discriminate|].
   destruct (is_generic_hide f); [intros [?|?]; discriminate|].
   destruct (is_exception f); [intros [?|?]; discriminate|].
-  destruct (is_important f); [intros [?|?]; discriminate|reflexivity].
+  destruct (is_important f); [|reflexivity]. cbn [andb].
+  destruct (is_redirect f), (also_block_redirect f); cbn; try (intros [?|?]; discriminate);
+    destruct (rtag f); cbn; intros [?|?]; discriminate.
 Qed.
 
 (* ---------------------------------------------------------------- the engine theorem *)
